@@ -63,6 +63,10 @@ def run(ctx):
     for e in ("EECONNRESET", "EEPIPE"):           # terminal states
         ops += ["N ready", "S 6162 - " + e] + ["U %d 0" % c for c in range(4)]
     ops += ["N ready", "R 10 - Z"] + ["U %d 0" % c for c in range(4)]
+    # established through the connect phase (every call that can complete it): the connect-phase helpers are gone
+    for start, est in (("connecting", "o"), ("connecting", "a"), ("resolving", "o,o,o"), ("resolving", "o,o,a")):
+        for call in ("F %s", "S 6162 %s A", "R 10 %s EEAGAIN"):
+            ops += ["N " + start, call % est, "F o"] + ["U %d %d" % (c, q) for c in range(4) for q in range(2)]
     ctx.differential("unit_btcp", "btcp", bexe, ops, label="btcp-update-exhaustive")
     uexe = ux.build()
     ops = ["N"] + ["U %d" % c for c in range(8)] + ["SU %d" % c for c in range(8)]
@@ -78,6 +82,8 @@ def run(ctx):
     for proto in sysattr.PROTOS:
         for sd in range(1 if quick else 8):
             cmds.append("Q %s %d %d" % (proto, ctx.seed * 100 + sd, 2 if quick else 6))
+    for proto in ("btcp", "btls"):
+        cmds.append("STUCK " + proto)
     rc, out, err = sysattr.run(qexe, cmds, ctx, timeout=900)
     ctx.traces += 1
     if rc != 0 or len(out) != len(cmds):
@@ -90,13 +96,27 @@ def run(ctx):
         if o.startswith("fail"):
             ctx.corr_break("sys_quiet", "%s: %s" % (c, o), rep)
             continue
+        if c.startswith("STUCK"):
+            f = dict(x.split("=") for x in o.split())
+            ctx.nontriv((c, f["spin_client"] != "0", f["spin_accepted"] != "0", f["receive"]))
+            if f["finish"] == "0,0" and f["accepted"] == f["delivered"] and f["receive"] == "EAGAIN":
+                for side in ("client", "accepted"):
+                    if f["spin_" + side] != "0":
+                        ctx.violation("sys_quiet:monitor:spurious-readable:refused-send-not-retried:%s:%s" % (c.split()[1], side),
+                                      "after a byte-stream xcm_send was refused with EAGAIN and not retried, every accepted byte was delivered and "
+                                      "xcm_finish succeeded on both ends, yet the %s socket's fd stays readable while RECEIVABLE is awaited and "
+                                      "xcm_receive reports EAGAIN (an event loop spins): %s" % (side, o), rep)
+            else:
+                ctx.notes.append("sys_quiet %s: not quiescent: %s" % (c, o))
+            continue
         f = dict(x.split("=") for x in o.replace("(", " r=").replace(")", "").split())
         ctx.nontriv((c.split()[1], o))
         proto = c.split()[1]
         if f["eagain"] != "1":
             ctx.notes.append("sys_quiet %s: the pair was not quiescent (receive did not report EAGAIN)" % proto)
             continue
-        for key, what in (("quiet0", "condition 0 on idle sockets"), ("quietR", "RECEIVABLE after xcm_receive reported EAGAIN"),
+        for key, what in (("quiet0pre", "condition 0 standing while a buffered message was flushed by xcm_finish alone (and after the connect timeout)"),
+                          ("quiet0", "condition 0 on idle sockets"), ("quietR", "RECEIVABLE after xcm_receive reported EAGAIN"),
                           ("quietS", "a server awaiting ACCEPTABLE with no connection pending"),
                           ("quiet0data", "condition 0 while a message is waiting"), ("quiet0conn", "condition 0 on a server with a pending connection")):
             if f[key] != "0":
